@@ -1720,8 +1720,11 @@ def parseOp (st : St) (name : String) (toks : List String) :
     if !MADVISE_VALUES.contains adv then none else
     pure (op, k, { base with address := ad, len := len, flags := adv }, [])
 
-/-- Errors for which an operation has a special fallback path that performs a
-real system call (not modelled; such lines are rejected by both sides). -/
+/-- Errors for which an operation has a special fallback path that may perform
+a real system call (`fallbackCall`): `PipeOp` on `EINVAL` (pipe.rs:48-62),
+`SocketNameOp` on `EOPNOTSUPP` (net.rs:185-205), `SocketOptionOp` /
+`SetSocketOptionOp` on `ErrorKind::Unsupported` (net.rs:832-847, 889-904), which
+std's `decode_error_kind` gives to `ENOSYS` (38) and `EOPNOTSUPP` (95). -/
 def specialErr (op : OpKind) (e : Int) : Bool :=
   match op with
   | .pipe => e = 22
@@ -1730,8 +1733,9 @@ def specialErr (op : OpKind) (e : Int) : Bool :=
   | _ => false
 
 /-- `fallback` per operation: `ToDirectOp`/`ToFdOp` (fd.rs:85-99, 180-194),
-socket options and names (net.rs:185-205, 831-844, 887-900) and pipes
-(pipe.rs:49-63) return the error unchanged; everything else maps `EINVAL`. -/
+socket options and names (net.rs:185-205, 832-847, 889-904) and pipes
+(pipe.rs:48-62) return the error unchanged (when they issue no system call, see
+`fallbackCall`); everything else maps `EINVAL`. -/
 def opErr (op : OpKind) (e : Int) : IoErr :=
   match op with
   | .todirect | .tofd | .sockname | .getsockopt | .setsockopt | .pipe => .os e
@@ -1740,6 +1744,99 @@ def opErr (op : OpKind) (e : Int) : IoErr :=
 def showErr : IoErr → String
   | .os e => s!"err {e}"
   | .unsupported => "err unsupported"
+
+/-! ### Synchronous fallbacks
+
+When the completion carries one of the `specialErr` errors the operation's
+`fallback` may perform the corresponding *synchronous* system call. A system
+call takes a regular descriptor number: since `fix: don't fall back to system
+calls on direct descriptors` the three descriptor operations fall back only for
+`fd::Kind::File` and otherwise return the kernel's error unchanged. -/
+
+/-- A synchronous system call issued by a `fallback`. -/
+structure SysCall where
+  name : String
+  /-- descriptor number passed (`none`: the call takes no descriptor) -/
+  fd : Option Nat := none
+  level : Nat := 0
+  optname : Nat := 0
+  /-- address buffer length (`*address_len` on entry) / option length -/
+  len : Nat := 0
+  /-- option value passed to `setsockopt` -/
+  val : List Nat := []
+  /-- `pipe2` flags -/
+  flags : Nat := 0
+  deriving Repr, DecidableEq, Inhabited
+
+/-- The system call `fallback(target, resources, args, err)` issues for a failed
+completion with errno `e`, if any.
+* `SocketNameOp` (net.rs:185-205): `Some(EOPNOTSUPP) if matches!(fd.kind(), Kind::File)`:
+  `*address_length = length` (of `A::as_mut_ptr`), then `getsockname(fd.fd(), ptr, address_length)`
+  for `Name::Local`, `getpeername` for `Name::Peer`.
+* `SocketOptionOp` (net.rs:832-847): `err.kind() == Unsupported && matches!(fd.kind(), Kind::File)`:
+  `sync_socket_option2::<T>(fd.fd())` (src/net.rs:1025-1040) = `getsockopt(fd, T::LEVEL, T::OPT,
+  optval, &mut optlen)` on a fresh storage with `optlen` from `T::as_mut_ptr`.
+* `SetSocketOptionOp` (net.rs:889-904): same condition, `sync_set_socket_option2::<T>(fd.fd(), &value)`
+  (src/net.rs:1049-1060) = `setsockopt(fd, T::LEVEL, T::OPT, &storage, size_of::<T::Storage>())`.
+* `PipeOp` (pipe.rs:48-62): `Some(EINVAL)`: `pipe2(fds, flags | O_CLOEXEC)` — whatever kind of
+  descriptor was asked for (documented in src/pipe.rs:41-47). -/
+def fallbackCall (op : OpKind) (a : Args) (k : FdKind) (e : Int) : Option SysCall :=
+  match op with
+  | .sockname =>
+    if e = 95 ∧ k = .file then
+      some { name := if a.which = 0 then "getsockname" else "getpeername", fd := some a.fd,
+             len := mutLen a.aty }
+    else none
+  | .getsockopt =>
+    if (e = 95 ∨ e = 38) ∧ k = .file then
+      some { name := "getsockopt", fd := some a.fd, level := a.level, optname := a.optname,
+             len := a.optlen }
+    else none
+  | .setsockopt =>
+    if (e = 95 ∨ e = 38) ∧ k = .file then
+      some { name := "setsockopt", fd := some a.fd, level := a.level, optname := a.optname,
+             len := a.optlen, val := a.optval }
+    else none
+  | .pipe => if e = 22 then some { name := "pipe2", flags := a.flags ||| O_CLOEXEC } else none
+  | _ => none
+
+/-- What a `fallback` returns. -/
+inductive FbResult where
+  /-- no system call: `Err(err)` / `Err(fallback(err))` -/
+  | err (e : IoErr)
+  /-- the system call failed: `syscall!(..)?` returns `last_os_error()` as it is -/
+  | sysErr (e : Int)
+  /-- the system call succeeded: its out-parameters go through the same decoder
+  as the io_uring completion (`A::init`, `T::init`, `Ok(())`, `map_ok`) -/
+  | decoded
+  deriving Repr, DecidableEq, Inhabited
+
+/-- Result of the operation whose completion failed with `e`; `sys` is the
+return value of the system call (0 or `-errno`) should one be issued. -/
+def fallbackResult (op : OpKind) (a : Args) (k : FdKind) (e : Int) (sys : Int) : FbResult :=
+  match fallbackCall op a k e with
+  | none => .err (opErr op e)
+  | some _ => if sys < 0 then .sysErr (-sys) else .decoded
+
+/-- The arguments and result under which `decodeOk` decodes what the system
+call wrote: `getsockopt` reports the length in `*optlen` (`slen`), the others
+return 0; `pipe2` creates regular descriptors (`map_ok(sq, (fds, Kind::File), (_, res))`). -/
+def fallbackDecodeArgs (op : OpKind) (a : Args) (slen : Nat) : Args × Nat :=
+  match op with
+  | .getsockopt => (a, slen)
+  | .pipe => ({ a with ckind := .file }, 0)
+  | _ => (a, 0)
+
+def showSys : Option SysCall → String
+  | none => "sys none"
+  | some c =>
+    let fd := match c.fd with | some n => s!" fd={n}" | none => ""
+    if c.name == "getsockopt" then
+      s!"sys {c.name}{fd} level={c.level} optname={c.optname} optlen={c.len}"
+    else if c.name == "setsockopt" then
+      s!"sys {c.name}{fd} level={c.level} optname={c.optname} optval={Addr.hex c.val} optlen={c.len}"
+    else if c.name == "pipe2" then s!"sys {c.name} flags={c.flags}"
+    else s!"sys {c.name}{fd} addrlen={c.len}"
 
 def stepLine (st : St) (toks : List String) : St × List String :=
   match toks with
@@ -1762,7 +1859,10 @@ def stepLine (st : St) (toks : List String) : St × List String :=
     match parseOp st name rest, findInt "res" rest, findNat "late" rest with
     | some (op, k, a, bufs), some res, some late =>
       if res ≤ -2147483648 ∨ res ≥ 2147483648 ∨ late > 1
-          ∨ (late = 1 ∧ (op = .close ∨ op = .dropfd)) then (st, ["bad-op"])
+          ∨ (late = 1 ∧ (op = .close ∨ op = .dropfd))
+          -- `sys=`/`slen=` belong to lines whose completion carries a special error
+          ∨ (((findKv "sys" rest).isSome ∨ (findKv "slen" rest).isSome)
+              ∧ ¬ (res < 0 ∧ specialErr op (-res) = true)) then (st, ["bad-op"])
       else
         let r := fill op a k
         let head := [showSqe "sqe" r.sqe] ++ showMem r.mem ++ [showCall (abi op r)]
@@ -1780,7 +1880,29 @@ def stepLine (st : St) (toks : List String) : St × List String :=
             | some s => (st, head ++ again ++ ["out " ++ s])
             | none => (st, ["bad-op"])
           | .error e =>
-            if e = 4 ∨ e = 125 ∨ specialErr op e then (st, ["bad-op"])
+            if e = 4 ∨ e = 125 then (st, ["bad-op"])
+            else if specialErr op e then
+              -- the line scripts the system call a fallback may issue: `sys=0|-errno`
+              -- (+ `slen=` = the option length `getsockopt` reports) and, as on a
+              -- successful line, what it writes (`peer`/`klen`, `ov`, `pfds`).
+              -- Lines without `sys=` (older syntax) are rejected as before.
+              let slen := if op = .getsockopt then findNat "slen" rest else some 0
+              match findInt "sys" rest, slen with
+              | some sys, some slen =>
+                if sys > 0 ∨ sys < -4095 ∨ slen ≥ U32 ∨ (op ≠ .getsockopt ∧ (findKv "slen" rest).isSome) then
+                  (st, ["bad-op"])
+                else
+                  let (a', n') := fallbackDecodeArgs op a slen
+                  -- the scripted outcome must be well formed whether or not it is used
+                  match decodeOk st op a' k rest bufs n' with
+                  | none => (st, ["bad-op"])
+                  | some d =>
+                    let o := match fallbackResult op a k e sys with
+                      | .err er => showErr er
+                      | .sysErr se => showErr (.os se)
+                      | .decoded => d
+                    (st, head ++ again ++ [showSys (fallbackCall op a k e), "out " ++ o])
+              | _, _ => (st, ["bad-op"])
             else (st, head ++ again ++ ["out " ++ showErr (opErr op e)])
     | _, _, _ => (st, ["bad-op"])
   | _ => (st, ["bad-op"])
